@@ -297,6 +297,14 @@ def mon_c02(ctx, obs, orig, case):
             else:
                 o_ = [b for n, b in c["listing"] if n == "original"]
                 got = o_[0] if o_ else None
+            kinds = [r[0] for r in case.get("runs", [])]
+            if k == prev_calls and (kinds[i] if i < len(kinds) else "m") != "c":
+                # first test of a run: the fallback copy `original` is the file this run started from (also when the temp
+                # directory is shared with an earlier run, whose `original` is still lying there)
+                o0 = [b for n, b in c["listing"] if n == "original"]
+                start = content(o.tested[0][0]) if o.tested else None
+                if o0 and start is not None and o0[0] != start:
+                    ctx.fail("original-stale", f"run {i}, first test: `original` in the temp dir holds {o0[0]!r}, the run started from {start!r}", case)
             if o.calls[0:1] and k == 0 and got is None:
                 continue  # check-only has no 'original' copy and nothing accepted yet: nothing to recover
             if got is None and not [x for x in before if x["out"] == "a"]:
